@@ -18,6 +18,8 @@ use jxl_grid::AllocTracker;
 pub use ma::{FlatMaTree, MaConfig, MaConfigParams};
 pub use param::*;
 pub use sample::Sample;
+#[cfg(jxl_oxide_verif)]
+pub use transform::verif_squeeze;
 
 /// A Modular encoded image.
 ///
